@@ -1231,8 +1231,41 @@ func allFiniteAny(x any) bool {
 	return v.allFinite() && v.allStringsValid()
 }
 
+// an insertion of a value of an unsupported Go type into a random live container (or a constructor call with one): it panics, and
+// nothing may have changed
+func (p *Prog) rejectedInsertion() {
+	bad := pickOf(p.r, badValues)
+	ls, os := p.listRegs(), p.objRegs()
+	switch {
+	case len(ls) > 0 && (len(os) == 0 || p.r.chance(0.6)):
+		r := pickOf(p.r, ls)
+		n := p.m.list(r).Count()
+		switch p.r.Intn(3) {
+		case 0:
+			p.do(&Op{Name: "LAddBad", R: r, Bad: bad})
+		case 1:
+			p.do(&Op{Name: "LInsertBad", R: r, I: int64(p.r.Intn(n + 1)), Bad: bad})
+		default:
+			if n > 0 {
+				p.do(&Op{Name: "LReplaceBad", R: r, I: int64(p.r.Intn(n)), Bad: bad})
+			} else {
+				p.do(&Op{Name: "LAddBad", R: r, Bad: bad})
+			}
+		}
+	case len(os) > 0:
+		r := pickOf(p.r, os)
+		p.do(&Op{Name: "OSetBad", R: r, K: p.key(p.m.object(r)), Bad: bad})
+	default:
+		p.do(&Op{Name: pickOf(p.r, []string{"NewListBad", "NewObjectBad"}), Bad: bad})
+	}
+}
+
 // a valid-domain mutation of a random live container (the boundary behaviour of the mutators belongs to C05/C06)
 func (p *Prog) xMutate() {
+	if p.r.chance(0.05) {
+		p.rejectedInsertion()
+		return
+	}
 	ls, os := p.listRegs(), p.objRegs()
 	if len(ls) > 0 && (len(os) == 0 || p.r.chance(0.6)) {
 		r := pickOf(p.r, ls)
@@ -1649,4 +1682,103 @@ func init() {
 	for _, p := range xProfiles {
 		generators[p] = genXHeap(p)
 	}
+}
+
+
+// ---------- scale: structures beyond a thousand levels (implementation only; the model would need minutes) ----------
+// Clone / Merge / Equals / NativeDict / String on an acyclic chain 1200 containers deep, insertion of a native value nested 10050
+// slices deep: every one of them works on the unchanged library (its recursion is bounded only by the goroutine stack, see K2)
+func deepScaleCase(prop string) *Case {
+	f := &failer{pred: true}
+	if try(func() {
+		const depth = 1200
+		var inner any = at.NewObject("leaf", 1)
+		var innerL any = at.NewList(1)
+		for i := 0; i < depth; i++ {
+			if i%2 == 0 {
+				inner = at.NewObject("k", inner)
+			} else {
+				inner = at.NewObject("k", inner, "l", at.NewList(i))
+			}
+			innerL = at.NewList(innerL)
+		}
+		root := inner.(at.Object)
+		rootL := innerL.(at.List)
+		switch prop {
+		case "C06":
+			m := root.Merge(at.NewObject("extra", 2))
+			if m.Count() != root.Count()+1 || !m.KeyExists("k") || m.GetInt("extra") != 2 {
+				f.fail("Merge on a receiver nested %d objects deep lost or added fields", depth)
+			}
+			if m.GetObject("k") == root.GetObject("k") {
+				f.fail("Merge did not clone a deeply nested receiver")
+			}
+		case "C08":
+			c := root.Clone()
+			cl := rootL.Clone()
+			if !c.Equals(root) || !cl.Equals(rootL) {
+				f.fail("the clone of a structure nested %d containers deep does not Equal its source", depth)
+			}
+			// walk both sides down to the bottom: no container may be shared at any level
+			var x, y any = root, c
+			for i := 0; i < depth; i++ {
+				xo, yo := x.(at.Object), y.(at.Object)
+				if xo == yo {
+					f.fail("Clone shares the object at nesting level %d with its source", i)
+					break
+				}
+				x, y = xo.Get("k"), yo.Get("k")
+			}
+			var xl, yl any = rootL, cl
+			for i := 0; i < depth; i++ {
+				a, b := xl.(at.List), yl.(at.List)
+				if a == b {
+					f.fail("Clone shares the list at nesting level %d with its source", i)
+					break
+				}
+				xl, yl = a.Get(0), b.Get(0)
+			}
+		case "C13":
+			d := root.NativeDict()
+			var x any = d
+			for i := 0; i < depth; i++ {
+				mm, ok := x.(map[string]any)
+				if !ok {
+					f.fail("NativeDict of a structure nested %d deep holds a %T at level %d instead of a plain map", depth, x, i)
+					break
+				}
+				x = mm["k"]
+			}
+			sl := rootL.NativeSlice()
+			var y any = sl
+			for i := 0; i < depth; i++ {
+				ss, ok := y.([]any)
+				if !ok {
+					f.fail("NativeSlice of a list nested %d deep holds a %T at level %d instead of a plain slice", depth, y, i)
+					break
+				}
+				y = ss[0]
+			}
+		case "C12":
+			var nat any = 7
+			for i := 0; i < 10050; i++ {
+				if i%2 == 0 {
+					nat = []any{nat}
+				} else {
+					nat = map[string]any{"k": nat}
+				}
+			}
+			l := at.NewList(nat)
+			if l.TypeOf(0) != at.TypeObject && l.TypeOf(0) != at.TypeList {
+				f.fail("a supported value nested 10050 native slices/maps deep was not stored as a container")
+			}
+			o := at.NewObject().Set("k", nat)
+			if o.TypeOf("k") != l.TypeOf(0) {
+				f.fail("Set and NewList disagree on a deeply nested native value")
+			}
+		}
+	}) {
+		f.fail("an operation panicked on an acyclic structure more than a thousand levels deep (%s)", prop)
+	}
+	return &Case{Coq: "", Desc: map[string]any{"deep_structure": prop}, Pred: f.pred, PredMsg: f.msg, Nontrivial: true, Key: "deep-scale/" + prop, Tags: []string{"deep-scale"}}
 }
